@@ -156,11 +156,23 @@ pub fn run_case(ctx: &mut Ctx, fam: &str, k: u64, r: &mut Rng) {
 /// the sum of the adjoint over the broadcast positions ([cols], [1,cols], [rows,cols] under a batch, single element).
 fn run_matmul_term(ctx: &mut Ctx, k: u64, r: &mut Rng) {
     let mut case = super::c02::gen_matmul(r, k);
-    if case.dims.len() < 3 {
+    // a factor shared by a batch (its leading dimensions are absent or 1 where the partner's are not) is a broadcast
+    // operand too: its gradient is the sum over the batch
+    let shared_factor = {
+        let (a, b) = (&case.dims[0], &case.dims[1]);
+        let (la, lb) = (&a[..a.len().saturating_sub(2)], &b[..b.len().saturating_sub(2)]);
+        a.len() >= 2 && b.len() >= 2 && la != lb
+    };
+    if case.dims.len() < 3 && !shared_factor {
         return;
     }
-    // the term is tracked; the factors at random
-    case.mask = vec![r.chance(1, 2), r.chance(1, 2), true];
+    if case.dims.len() >= 3 {
+        // the term is tracked; the factors at random
+        case.mask = vec![r.chance(1, 2) || shared_factor, r.chance(1, 2) || shared_factor, true];
+    } else {
+        case.mask = vec![true, true];
+        ctx.count("matmul_factor_shared_by_batch", 1);
+    }
     let p = case.program();
     let rr = match eval_ref_plain(&p) {
         Some(x) => x,
@@ -170,7 +182,7 @@ fn run_matmul_term(ctx: &mut Ctx, k: u64, r: &mut Rng) {
     let seed = rand_seed(r, rr.vals[root].v.len());
     let passes = 1 + r.below(2);
     let o = run_and_check(&p, &seed, &CheckOpts { passes, ..Default::default() });
-    let bc = case.dims[2] != rr.vals[root].dims;
+    let bc = shared_factor || case.dims[2] != rr.vals[root].dims;
     ctx.case(&format!("{}|{}|p{}|{}", p.desc(), mask_name(&case.mask), passes, seed.name()), bc && o.nonzero_grads > 0);
     ctx.hist("cells", &format!("matmul-term|{}", case.cell));
     if bc {
